@@ -21,11 +21,12 @@ pub static PROP: Prop = Prop {
     fixed,
     replay: Some(replay),
     breadcrumb: false,
+    fuzz: &[],
 };
 
 fn budget(t: Tier) -> Budget {
     Budget {
-        cases: t.pick(300_000, 20_000_000),
+        cases: t.pick(5_000_000, 80_000_000),
         max_len: 24,
         shards: 16,
         dual_profile: false,
